@@ -120,6 +120,18 @@ def run_env_strict(case, idx):
     return {"created": out}
 
 
+def run_env_legacy(case, idx):
+    """oracle stream (process started with ZOPE_INTERFACE_USE_LEGACY_IRO=1): every __sro__."""
+    assert ro.C3.USE_LEGACY_IRO, "legacy environment expected"
+    import logging
+    logging.disable(logging.CRITICAL)   # "different legacy and C3 MROs" reports are not of interest
+    w = World()
+    build(case, idx, w)
+    w.close()
+    return {"graph": [[i, w.nums(s.__bases__)] for i, s in enumerate(w.specs)],
+            "sros": [[i, w.nums(s.__sro__)] for i, s in enumerate(w.specs)]}
+
+
 def main():
     payload = _boot.read_payload()
     out = []
@@ -127,6 +139,8 @@ def main():
         try:
             if payload.get("env_strict"):
                 out.append(run_env_strict(case, idx))
+            elif payload.get("env_legacy"):
+                out.append(run_env_legacy(case, idx))
             else:
                 out.append(run_case(case, idx))
         except Exception as e:  # reported as data
